@@ -21,6 +21,8 @@ dest = m.group(1)
 pkg = "./" + os.path.dirname(dest)
 run = re.search(r"-run '([^']+)'", meta["demo_cmd"]).group(1)
 tags = "-tags integration " if "integration" in meta["demo_cmd"] else ""
+if "-race" in meta["demo_cmd"]:
+    tags += "-race "
 stable = json.load(open("/var/tmp/vt/stable.json"))
 res = {}
 clean()
